@@ -6,6 +6,7 @@ CONSTANTS
   MaxNet = 1
   MaxLink = 1
   OwedSigQuirk = FALSE
+  StrandQuirk = FALSE
 INVARIANTS
   TypeOK
   SettleOnlyWithDownstreamPreimage
